@@ -2,6 +2,7 @@ mod explore;
 mod json;
 mod link;
 mod nc;
+mod netsim;
 mod props;
 mod report;
 
